@@ -23,7 +23,7 @@ from ..core import h64
 
 F, X, L, D, G = 0o100644, 0o100755, 0o120000, 0o40000, 0o160000
 
-UNIVERSE = [b"a", b"b", b"c", b"d", b"x", b"sub", b"lnk", b"f", b"hooks", b"pre-commit", b"config", b"other", b"heads"]
+UNIVERSE = [b"a", b"b", b"c", b"d", b"x", b"sub", b"lnk", b"f", b"hooks", b"pre-commit", b"config", b"other", b"heads", b"0nd"]
 
 ZW = "\u200c".encode()  # ZERO WIDTH NON-JOINER, ignored by HFS+
 DOTGIT_VARIANTS = [
@@ -181,6 +181,10 @@ def shape_case(rnd):
     keep = blob(b"keep")
     q = [blob(b"q")]
     sub_bc = [blob(b"b"), blob(b"c"), tree(b"sub", [blob(b"c")])]
+    # a name that exists nowhere in the canary forest and sorts first: whatever appears under it was *created*
+    # (directories included), and it is met before any shallower sibling can abort the checkout
+    fresh = [tree(b"0nd", [blob(b"f"), tree(b"deep", [blob(b"g")])])] if rnd.randrange(2) else []
+    sub_bc = sub_bc + fresh
     labels = [shape]
     if shape == "sym-then-dir":
         trees = [[link(b"a", tgt), keep], [tree(b"a", sub_bc), keep]]
@@ -191,7 +195,7 @@ def shape_case(rnd):
     elif shape == "dir-then-file":
         trees = [[tree(b"a", sub_bc), keep], [blob(b"a", BLOB_MODES[rnd.randrange(len(BLOB_MODES))]), keep]]
     elif shape == "slash-prefix":
-        trees = [[link(b"a", tgt), blob(b"a/b"), blob(b"a/sub/c"), keep]]
+        trees = [[link(b"a", tgt), blob(b"a/b"), blob(b"a/sub/c")] + ([blob(b"a/0nd/deep/g")] if fresh else []) + [keep]]
         if chance(rnd, 50):
             trees[0] = [blob(b"a/b"), link(b"a", tgt), keep]
     elif shape == "dup-raw":
@@ -204,7 +208,7 @@ def shape_case(rnd):
         trees = [ents + [keep]]
     elif shape == "nested-sym":
         t1, _ = targets(1)[rnd.randrange(len(targets(1)) - 6)]
-        trees = [[tree(b"a", [link(b"b", t1)]), keep], [tree(b"a", [tree(b"b", [blob(b"c"), blob(b"x")])]), keep]]
+        trees = [[tree(b"a", [link(b"b", t1)]), keep], [tree(b"a", [tree(b"b", [blob(b"c"), blob(b"x")] + fresh)]), keep]]
     elif shape == "dotgit-variant":
         v = DOTGIT_VARIANTS[rnd.randrange(len(DOTGIT_VARIANTS))]
         k = rnd.randrange(4)
@@ -219,7 +223,7 @@ def shape_case(rnd):
         trees = [[blob(b"0first"), ent, blob(b"zlast")]]
     elif shape == "sym-into-git-then-dir":
         t = [b".git", b".git/hooks", b".git/refs", b"@W@/.git"][rnd.randrange(4)]
-        trees = [[link(b"lnk", t), keep], [tree(b"lnk", [tree(b"hooks", [blob(b"pre-commit", X), blob(b"x")]), blob(b"config"), tree(b"heads", [blob(b"b")])]), keep]]
+        trees = [[link(b"lnk", t), keep], [tree(b"lnk", [tree(b"hooks", [blob(b"pre-commit", X), blob(b"x")]), blob(b"config"), tree(b"heads", [blob(b"b")])] + fresh), keep]]
     elif shape == "final-sym-overwrite":
         t = [b"../canary.txt", b".git/config", b".git/hooks/pre-commit", b"@S@/sandbox/canary.txt", b".git/hooks/new-hook", b"../other/b"][rnd.randrange(6)]
         trees = [[link(b"f", t), keep], [blob(b"f", BLOB_MODES[rnd.randrange(len(BLOB_MODES))]), keep]]
